@@ -65,6 +65,46 @@ fn gen_ops(rng: &mut Rng, cfg: GenCfg, n: usize, clean_snapshot_names: bool) -> 
     }
     let target = n.max(ops.len() + 20);
     while ops.len() < target {
+        // directed macro (only where re-taking is allowed): a snapshot, then rows of the group are
+        // deleted or re-keyed, then the snapshot is RE-TAKEN under the same live name and - a few
+        // operations later - rolled back to: the second take must replace the first, not merge with it
+        if !clean_snapshot_names && g.rng.chance(3) {
+            let gi = g.rng.below(N_GROUPS);
+            if model.group_exists(gi) {
+                let name = g.rng.below(3);
+                let mut seq = vec![Op::SnapCreate { g: gi, name }];
+                for _ in 0..g.rng.range(1, 3) {
+                    seq.push(match g.rng.below(5) {
+                        0 => Op::ReplaceRelays { g: gi, mask: g.rng.below(16) as u8 },
+                        1 => Op::PropClear { g: gi },
+                        2 => Op::LeafDelete { g: gi },
+                        3 => Op::EpkDelete { g: gi, e: g.rng.below(3) as u8, leaf: g.rng.below(2) as u32 },
+                        _ => Op::GdDelete { g: gi, ty: g.rng.below(N_GD_TYPES as usize) as u8 },
+                    });
+                }
+                seq.push(Op::SnapCreate { g: gi, name });
+                for _ in 0..g.rng.below(3) {
+                    seq.push(g.next());
+                }
+                seq.push(Op::SnapRollback { g: gi, name });
+                for op in seq {
+                    // the interleaved random operations obey the same preconditions as below
+                    if let Op::SnapCreate { g: x, .. } = &op
+                        && !model.group_exists(*x)
+                    {
+                        continue;
+                    }
+                    if let Op::SaveGroup(spec) = &op
+                        && spec.nid_of.is_some()
+                    {
+                        continue;
+                    }
+                    model.apply(&u, &op);
+                    ops.push(op);
+                }
+                continue;
+            }
+        }
         let mut op = g.next();
         if let Op::SnapCreate { g: gi, name } = &op {
             if !model.group_exists(*gi) {
